@@ -242,6 +242,9 @@ def insertm_ensures(m):
         ('survivors_unchanged', ['C01', 'C05'], 'forall|x: String| x != %s && #[trigger] %s.contains_key(x) ==> %s.contains_key(x) && %s[x] == %s[x]' % (K, M1, M0, M1, M0)),
         ('last_store_wins', ['C01', 'C11', 'C03', 'C09', 'C10'], '%s.contains_key(%s) ==> %s[%s].value == value && %s[%s].frequency == 0' % (M1, K, M1, K, M1, K)),
         ('fifo_lru_oldest_first', ['C07'], '(!%s && (old(self).policy is FIFO || old(self).policy is LRU)) ==> is_suffix(final(self).order@, %s)' % (OVERSIZE, Q1)),
+        # C08 under memory pressure: every evicted entry (the zero-hit newcomer included) had no more hits than any survivor
+        ('lfu_evicts_least_frequent', ['C08'], '(!%s && old(self).policy is LFU) ==> forall|x: String, y: String| #![trigger %s.contains_key(x), %s.contains_key(y)] '
+         '%s.contains_key(x) && x != %s && !%s.contains_key(x) && %s.contains_key(y) && y != %s ==> %s[x].frequency <= %s[y].frequency' % (OVERSIZE, M0, M1, M0, K, M1, M1, K, M0, M0)),
         ('bound', ['C04'], '(old(self).limit is Some && old(self).limit->Some_0 >= 1 && old(self).order@.len() <= old(self).limit->Some_0) ==> final(self).order@.len() <= old(self).limit->Some_0'),
     ]
 
@@ -269,6 +272,8 @@ def memloop_spec(m, o, K='s2s(key)'):
             ('no_needless', '%s <= max_mem ==> %s@ == touch(old(self).order@, %s) && %s.dom() == %s.dom().insert(%s)' % (REST, o, K, MS, M0, K)),
             ('oldest_first', '(self.policy is FIFO || self.policy is LRU) ==> is_suffix(%s@, touch(old(self).order@, %s))' % (o, K)),
             ('shrinks', '%s@.len() <= touch(old(self).order@, %s).len()' % (o, K)),
+            ('lfu_order', 'self.policy is LFU ==> forall|x: String, y: String| #![trigger %s.contains_key(x), %s.contains_key(y)] '
+                          '%s.contains_key(x) && x != %s && !%s.contains_key(x) && %s.contains_key(y) && y != %s ==> %s[x].frequency <= %s[y].frequency' % (M0, MS, M0, K, MS, MS, K, M0, M0)),
         ],
         ensures=[('fits', 'mem_total(%s, %s@) <= max_mem' % (MS, o))],
         decreases='%s@.len()' % o)
